@@ -349,3 +349,9 @@ def _(ctx):
             okg = True
     ctx.record('near_equal', PROVED if okc else FAILED, 'B', 0, 'Taylor coefficients of orders 0..2 in (a-b)', solver='sympy series')
     ctx.record('generic', PROVED if okg else FAILED, 'B', 0, '(a^2 ln a - b^2 ln b)/(a - b)', solver='sympy')
+
+
+def fidelity(tier, seed):
+    """A-FRONT guard: the scalar functions of the files under contract, interpreter (float mode) vs compiled real code, bit for bit"""
+    from gm2v import fidelity as _fid
+    return _fid.scalar_guard(['src/THDM/gm2_2loop_B.cpp'], ['src/gm2_ffunctions.cpp', 'src/gm2_dilog.cpp', 'src/gm2_numerics.cpp'], n_calls=25 if tier == 'quick' else 200, seed=seed, ns_prefix='thdm::', approx=('T7', 'T8'))
